@@ -126,13 +126,33 @@ func (s *Service) Handle(ctx context.Context, conn net.Conn) error {
 	done := make(chan struct{})
 	defer close(done)
 
+	// Messages received on this connection are delivered on a channel of its
+	// own: with one channel for the whole service they were reported by
+	// whichever connection's goroutine read them first, under its address.
+	rcvMsg := make(chan Message)
+
+	mux := NewServeMux()
+	mux.HandleFunc(func(msg Message) error {
+		select {
+		case rcvMsg <- msg:
+		case <-done:
+		}
+		return nil
+	})
+
+	srv := &Server{
+		Banner:    s.srv.Banner,
+		Handler:   mux,
+		tlsConfig: s.srv.tlsConfig,
+	}
+
 	// Wait for a message and send it into the eventbus
 	go func() {
 		for {
 			select {
 			case <-done:
 				return
-			case message := <-s.receiveChan:
+			case message := <-rcvMsg:
 				header := []event.Option{}
 
 				for key, values := range message.Header {
@@ -171,7 +191,7 @@ func (s *Service) Handle(ctx context.Context, conn net.Conn) error {
 	}()
 
 	//Create new smtp server connection
-	c := s.srv.newConn(conn, rcvLine)
+	c := srv.newConn(conn, rcvLine)
 	// Start server loop
 	c.serve()
 	return nil
